@@ -274,6 +274,7 @@ func runC05(c *Ctx) {
 	c.Floor("C05-R2", "per-scope wipes in lock()", nPerScope, 3)
 	checkZeroMethodsWipeInPlace(c, "C05-R2")
 	checkEvictedAccountsAreWiped(c, "C05-R2")
+	checkUnlockedFlagSetLast(c, "C05-R3")
 	// every place the managers keep address OBJECTS (which carry clear-text keys once unlocked) is visited by lock():
 	// the address cache, but also the per-account "last address" objects, which loadAccountInfo rebuilds from the
 	// private account key and which are not part of the address cache
@@ -878,4 +879,100 @@ func checkUnlockLoopsComplete(c *Ctx, rule string) {
 		}
 	}
 	c.Floor(rule, "range loops of Unlock", n, 3)
+}
+
+// checkInvalidationAlwaysEvicts: a function whose job is to drop an account from the scoped manager's cache (it deletes
+// from acctInfo and does nothing else with the database) drops it whatever state the cached object is in: every path to
+// its return passes the delete, except over the edge on which the lookup found no entry. An early return for accounts
+// "with nothing to wipe" (no private key: imported xpub accounts, any account of a locked manager) leaves the stale
+// object cached: after a rolled-back import the next import under the same number derives from the old key.
+func checkInvalidationAlwaysEvicts(c *Ctx, rule string) {
+	p := c.P
+	n := 0
+	for _, fn := range p.FuncsIn("waddrmgr") {
+		if fn.Parent() != nil || fn.Signature.Recv() == nil || recvName(fn) != "ScopedKeyManager" || fn.Signature.Results().Len() != 0 {
+			continue
+		}
+		var del *ssa.Call
+		for _, call := range callsNamed(fn, "delete") {
+			if len(call.Call.Args) > 0 {
+				if tn, f, _, okf := fieldOf(stripConv(call.Call.Args[0])); okf && tn == "ScopedKeyManager" && f == "acctInfo" {
+					del = call
+				}
+			}
+		}
+		if del == nil {
+			continue
+		}
+		n++
+		q := &PathQuery{Fn: fn, Barrier: func(ins ssa.Instruction) bool { return ins == ssa.Instruction(del) }}
+		q.EdgeBarrier = func(from *ssa.BasicBlock, si int) bool {
+			ef := edgeFactOf(from, si)
+			if ef == nil {
+				return false
+			}
+			if ex, ok := ef.V.(*ssa.Extract); ok && ex.Index == 1 && ef.Kind == "false" {
+				if lk, isLk := ex.Tuple.(*ssa.Lookup); isLk {
+					_, f, _, okf := fieldOf(stripConv(lk.X))
+					return okf && f == "acctInfo"
+				}
+			}
+			return false
+		}
+		q.Target = func(ins ssa.Instruction, _ *ssa.BasicBlock) bool { _, isRet := ins.(*ssa.Return); return isRet }
+		hits := q.From(nil)
+		detail := ""
+		if len(hits) > 0 {
+			detail = fnName(fn) + " can return at " + p.Pos(hits[0].Ins.Pos()) + " with the account still cached: an invalidation that depends on the state of the cached object (e.g. only accounts holding a private key) leaves a stale account behind after a rolled-back import, and the next account created under that number derives its addresses from the old key"
+		}
+		c.Check(rule, "invalidation-always-evicts:"+fn.Name(), del.Pos(), len(hits) == 0, detail)
+	}
+	c.Floor(rule, "account-cache invalidation functions", n, 1)
+}
+
+// checkUnlockedFlagSetLast: the locked flag is read without the manager mutex by the scoped managers' import / account
+// paths, which then seal new material with the private crypto key. The flag may therefore say "unlocked" only once
+// everything an unlocked manager needs is in place: from the store of `false` into the flag no error return and no
+// re-lock is reachable — nothing that can fail comes after it. Clearing it right after the passphrase checked out opens a
+// window in which a concurrent import is accepted and sealed under the still blank (all-zero) crypto key.
+func checkUnlockedFlagSetLast(c *Ctx, rule string) {
+	p := c.P
+	n := 0
+	for _, fn := range p.FuncsIn("waddrmgr") {
+		for _, ci := range callsOf(fn) {
+			call, ok := ci.(*ssa.Call)
+			if !ok || calleeShort(&call.Call) != "Store" || len(call.Call.Args) != 2 {
+				continue
+			}
+			if _, f, _, okf := fieldOf(stripConv(call.Call.Args[0])); !okf || f != "locked" {
+				if fa, isFA := stripConv(call.Call.Args[0]).(*ssa.FieldAddr); !isFA {
+					continue
+				} else if _, f2 := fieldAddrName(fa); f2 != "locked" {
+					continue
+				}
+			}
+			k, isK := stripConv(call.Call.Args[1]).(*ssa.Const)
+			if !isK || k.Value == nil || k.Value.String() != "false" {
+				continue
+			}
+			n++
+			q := &PathQuery{Fn: fn}
+			q.Target = func(ins ssa.Instruction, via *ssa.BasicBlock) bool {
+				if r, ok := ins.(*ssa.Return); ok {
+					return fn.Signature.Results().Len() > 0 && p.classifyReturn(r, via) != retSuccess
+				}
+				if cc, ok := ins.(*ssa.Call); ok && calleeShort(&cc.Call) == "lock" {
+					return true
+				}
+				return false
+			}
+			hits := q.From(call)
+			detail := ""
+			if len(hits) > 0 {
+				detail = fnName(fn) + " flags the manager unlocked and can still fail / re-lock afterwards (at " + p.Pos(hits[0].Ins.Pos()) + "): between the two, callers that only read the flag treat a manager whose private crypto key is not loaded yet as unlocked and seal secrets under the blank key"
+			}
+			c.Check(rule, "unlocked-flag-set-last:"+fnName(fn), call.Pos(), len(hits) == 0, detail)
+		}
+	}
+	c.Floor(rule, "sites clearing the locked flag", n, 1)
 }
